@@ -15,13 +15,14 @@ from .core import jhash
 ID = 'C04'
 RULE = ('the C01 table generator (dims 1..6, thorough 1..12; all value kinds, id alphabets, metadata kinds, layout recipes incl. '
         'in-place stored zeros / reversed segments in CSR and CSC, compress on/off) plus empty-axis tables 0xM, Nx0, 0x1, 1x0, '
-        '0x0, all-zero tables and `biom convert --to-hdf5` (python entry point, table type from the vocabulary); the raw '
+        '0x0, all-zero tables, `biom convert --to-hdf5` through its helper AND through the real click command (JSON / TSV input, --table-type, '
+        '--collapsed-*, --process-obs-metadata, -m), load-and-write-again histories (also from a BIOM 2.0 file) and shipped files; the raw '
         'h5py tree of every file is compared with the model tree and decoded by the independent spec decoder; every case '
         'writes and decodes a file (all-zero and empty-axis tables are the boundary cases the property names); distinct by case hash')
 TRUSTED = ['hand-written model coq/Model/Hdf5.v + coq/Model/Sparse.v tied to biom/table.py by this correspondence run '
            '(raw h5py tree of every written file == model tree, spec decoder results equal)',
            'harness/spec_decoder.py: independent reading of doc/documentation/format_versions/biom-2.1.rst (its reading of the rst is stated in its docstring)',
-           'h5py / HDF5 / gzip filter',
+           'h5py / HDF5 / gzip filter', 'for the command-line cases: load_table on the JSON / TSV input (subject of C02 / C03) and Table.add_metadata (C18) build the expected table',
            'extraction (ExtrOcamlBasic only) + ocaml/driver_tail.ml, cross-checked against vm_compute on a sample']
 ASSUMPTIONS = ['the rst prints (M+1,) for observation/matrix/indptr and (N+1,) for sample/matrix/indptr; offsets of compressed rows number rows+1 = N+1: '
                'the two sizes are read as swapped',
@@ -47,7 +48,7 @@ def _state(case):
 
 
 def _genby(case):
-    if case.get('writer') == 'convert':
+    if case.get('writer') in ('convert', 'convert_cli'):
         from biom.parse import generatedby
         return generatedby()
     return case['genby']
@@ -77,11 +78,82 @@ def _plain_spec(t):
 
 def _source(case):
     """the table whose file is under test, as a spec"""
-    if case.get('kind') == 'fixture':
+    if case.get('kind') == 'fixture' or case.get('writer') == 'convert_cli':
         if jhash(case) not in _SRC:
             run_impl(case)
         return _SRC[jhash(case)]
     return case['spec']
+
+
+def _cli_expected(case, inp):
+    """what `biom convert --to-hdf5` has to write, computed WITHOUT the command: the table the library reads
+    from the input file, then the documented meaning of every option applied here"""
+    import biom
+    cli = case['cli']
+    t = biom.load_table(inp)
+    if cli.get('mapping'):                      # -m: sample metadata from a mapping file
+        t.add_metadata({k: dict(v) for k, v in cli['mapping'].items()}, 'sample')
+    if cli.get('process'):                      # --process-obs-metadata: the first category, split on ';' unless naive
+        key = list(t.metadata(axis='observation')[0].keys())[0]
+        f = (lambda x: x) if cli['process'] == 'naive' else (lambda x: [e.strip() for e in x.split(';')])
+        t.add_metadata({i: {key: f(m[key])} for i, m in zip(t.ids(axis='observation'), t.metadata(axis='observation'))},
+                       'observation')
+    for ax, attr in (('observation', '_observation_metadata'), ('sample', '_sample_metadata')):
+        if ax in cli.get('collapsed', []):      # --collapsed-*: the keys of each metadata entry are the collapsed ids
+            setattr(t, attr, [{'collapsed_ids': sorted(m.keys())} for m in t.metadata(axis=ax)])
+            t._cast_metadata()
+    t.type = cli.get('table_type') or (t.type if t.type not in (None, 'None') else 'Table')
+    return t
+
+
+def _cli_convert(case, out):
+    """the real command, in process.  The group's close callback closes fd 1: the standard descriptors are
+    saved and restored around the call.  -> (the expected table, the exception the command ended with | None)"""
+    import shutil
+    import tempfile
+    from biom.cli import cli as group
+    cli = case['cli']
+    t0 = U.build_table(case)
+    d = tempfile.mkdtemp(prefix='cli-', dir=U.tmpdir())
+    try:
+        inp = os.path.join(d, 'in.txt')
+        with open(inp, 'w', encoding='utf-8') as f:
+            if cli['input'] == 'json':
+                f.write(t0.to_json('harness'))
+            else:
+                key = cli.get('tsv_key')
+                f.write(t0.to_tsv(header_key=key, header_value=key,
+                                  metadata_formatter=(lambda x: '; '.join(x) if isinstance(x, list) else str(x))))
+        args = ['convert', '-i', inp, '-o', out, '--to-hdf5']
+        if cli.get('table_type'):
+            args += ['--table-type', cli['table_type']]
+        for ax in cli.get('collapsed', []):
+            args.append('--collapsed-observations' if ax == 'observation' else '--collapsed-samples')
+        if cli.get('process'):
+            args += ['--process-obs-metadata', cli['process']]
+        if cli.get('mapping'):
+            mp = os.path.join(d, 'map.txt')
+            cols = list(next(iter(cli['mapping'].values())))
+            with open(mp, 'w', encoding='utf-8') as f:
+                f.write('#SampleID\t' + '\t'.join(cols) + '\n')
+                for sid, row in cli['mapping'].items():
+                    f.write(sid + '\t' + '\t'.join(row[c] for c in cols) + '\n')
+            args += ['-m', mp]
+        expected = _cli_expected(case, inp)
+        saved = [os.dup(k) for k in (0, 1, 2)]
+        err = None
+        try:
+            try:
+                group.main(args=args, standalone_mode=False)
+            except BaseException as e:       # click may raise SystemExit / Abort
+                err = e
+        finally:
+            for k, fd in enumerate(saved):
+                os.dup2(fd, k)
+                os.close(fd)
+        return expected, err
+    finally:
+        shutil.rmtree(d, ignore_errors=True)
 
 
 def _in_domain(case):
@@ -95,10 +167,11 @@ def _decoded(path, mask_date=False):
         rep = spec_decoder.decode(path)
     except Exception as e:      # the decoder must not hide a malformed file behind its own crash
         rep = {'problems': ['spec decoder could not read the file: %s: %s' % (type(e).__name__, str(e)[:120])],
-               'csr': None, 'csc': None, 'shape': None, 'nnz': None, 'ids': {}, 'md_entries': {}}
+               'csr': None, 'csc': None, 'shape': None, 'nnz': None, 'ids': {}, 'md_entries': {}, 'attrs': {}}
     return {'write': 'ok', 'file': tree,
             'spec': {'problems': rep['problems'], 'csr': rep['csr'], 'csc': rep['csc']},
-            'seen': {'shape': rep['shape'], 'nnz': rep['nnz'], 'ids': rep['ids'], 'md_entries': rep['md_entries']}}
+            'seen': {'shape': rep['shape'], 'nnz': rep['nnz'], 'ids': rep['ids'], 'md_entries': rep['md_entries'],
+                     'type': (rep.get('attrs') or {}).get('type')}}
 
 
 def run_impl(case):
@@ -106,6 +179,23 @@ def run_impl(case):
     import h5py
     import numpy as np
     fixture = case.get('kind') == 'fixture'
+    cli = case.get('writer') == 'convert_cli'
+    if cli:
+        path = U.tmpfile()
+        try:
+            t, err = _cli_convert(case, path)
+            _STATE[jhash(case)] = U.enc_table_state(t)
+            # the oracle's source: ids and matrix of the ORIGINAL table, type and metadata as the options demand
+            _SRC[jhash(case)] = dict(_plain_spec(t), oids=list(case['spec']['oids']), sids=list(case['spec']['sids']),
+                                     mat=[list(r) for r in case['spec']['mat']])
+            if err is not None:
+                return {'write': ['err', tables.err_code(err) if isinstance(err, Exception) else 9]}
+            out = _decoded(path, mask_date=True)
+            out['in_domain'] = _in_domain(case)
+            return out
+        finally:
+            if os.path.exists(path):
+                os.remove(path)
     try:
         if fixture:
             from .core import REPO
@@ -147,9 +237,9 @@ def run_impl(case):
 
 
 def encode(case):
-    date = '<now>' if case.get('writer') == 'convert' else case['date']
+    date = '<now>' if case.get('writer') in ('convert', 'convert_cli') else case['date']
     k = jhash(case)
-    if case.get('kind') == 'fixture':
+    if case.get('kind') == 'fixture' or case.get('writer') == 'convert_cli':
         if k not in _STATE:
             run_impl(case)
         tree = [_STATE[k], U.cps(_genby(case)), U.cps(date)]
@@ -179,7 +269,7 @@ def _dec_part(w, csr_t, csc_t):
     return {'write': 'ok', 'file': f,
             'spec': {'problems': [] if csr is not None and csc is not None else ['model: the Coq spec decoder refuses the file'],
                      'csr': csr, 'csc': csc},
-            'seen': {'shape': f['attrs']['shape'][1], 'nnz': f['attrs']['nnz'][1],
+            'seen': {'shape': f['attrs']['shape'][1], 'nnz': f['attrs']['nnz'][1], 'type': f['attrs']['type'][1][2:],
                      'ids': {'observation': ids('observation'), 'sample': ids('sample')},
                      'md_entries': {'observation': ents('observation'), 'sample': ents('sample')}}}
 
@@ -204,6 +294,8 @@ def _check(s, part, label=''):
     true_nnz = sum(1 for row in s['mat'] for v in row if v != 0)
     if seen['nnz'] != true_nnz:
         fails.append(label + 'nnz attribute %s, the table has %d non-zero cells' % (seen['nnz'], true_nnz))
+    if seen.get('type') != (s.get('type') or ''):
+        fails.append(label + 'type attribute %r, the table type is %r' % (seen.get('type'), s.get('type')))
     want = [[U.fbits(v) for v in row] for row in s['mat']] if m else [[] for _ in range(n)]
     for k, lab in (('csr', 'observation (compressed row)'), ('csc', 'sample (compressed column)')):
         got = part['spec'][k]
@@ -260,12 +352,67 @@ def gen(rng, tier):
         yield hist(U.rand_case(rng, md, empty_axis=True))
     for i in range(40 * k):
         yield hist(U.rand_case(rng, md, all_zero=True))
-    for i in range(60 * k):
+    for i in range(40 * k):            # the real command line (click wrapper), in process
+        yield _cli_case(rng, md)
+    for i in range(40 * k):
         c = U.rand_case(rng, md, writer='convert', empty_axis=rng.random() < 0.1)
         c['spec']['type'] = rng.choice(U.VOCAB)     # --table-type; see docs/C04.md for the default
         c['compress'] = True                        # write_biom_table uses the default
         c.pop('gen2', None)
         yield c
+
+
+def _cli_case(rng, max_dim):
+    """a `biom convert ... --to-hdf5` command line: input JSON or TSV, table type, collapsed axes,
+    observation-metadata processing, sample mapping file"""
+    c = U.rand_case(rng, max_dim, writer='convert_cli', empty_axis=False)
+    for k in ('gen2', 'np_md'):
+        c.pop(k, None)
+    s = c['spec']
+    s['layout'] = ['dense']
+    s['ogmd'] = s['sgmd'] = None           # neither text format carries group metadata
+    mk = tables.ALPHABETS[rng.choice(['short', 'short', 'long', 'latin1', 'cjk'])]
+    s['oids'] = [mk(rng, i, 'o') for i in range(len(s['oids']))]
+    s['sids'] = [mk(rng, i, 's') for i in range(len(s['sids']))]
+    s['mat'] = [[(tables.rand_value(rng, rng.choice(['counts', 'signed', 'dyadic'])) if v else 0.0) for v in row] for row in s['mat']]
+    cli = {'input': rng.choice(['json', 'json', 'tsv']), 'table_type': rng.choice(U.VOCAB + [None]), 'collapsed': [],
+           'process': None, 'mapping': None}
+    r, n = len(s['oids']), len(s['sids'])
+    tax = lambda: '; '.join('%s__%s' % (rng.choice('kpcofgs'), rng.choice(['A', 'Bé', 'C c'])) for _ in range(rng.randint(1, 3)))
+    if cli['input'] == 'tsv':
+        s['smd'] = None
+        s['type'] = None
+        kind = rng.choice(['none', 'tax', 'descr'])
+        if kind == 'tax':
+            s['omd'] = [{'taxonomy': tax().split('; ')} for _ in range(r)]
+            cli['tsv_key'], cli['process'] = 'taxonomy', rng.choice(['taxonomy', 'sc_separated'])
+        elif kind == 'descr':
+            s['omd'] = [{'Description': rng.choice(['a', 'b c', 'ü', 'x;y'])} for _ in range(r)]
+            cli['tsv_key'], cli['process'] = 'Description', rng.choice([None, 'naive'])
+        else:
+            s['omd'], cli['tsv_key'] = None, None
+    else:
+        kind = rng.choice(['asis', 'collapsed', 'collapsed', 'process'])
+        if kind == 'collapsed':
+            axes = rng.choice([['observation'], ['sample'], ['observation', 'sample']])
+            cli['collapsed'] = axes
+            members = lambda i: {'m%d_%d' % (i, j): rng.choice(['x', 'y']) for j in range(rng.randint(1, 3))}
+            if 'observation' in axes:
+                s['omd'] = [members(i) for i in range(r)]
+            if 'sample' in axes:
+                s['smd'] = [members(i) for i in range(n)]
+        elif kind == 'process':
+            s['omd'] = [{'lineage': tax()} for _ in range(r)]
+            cli['process'] = rng.choice(['sc_separated', 'taxonomy', 'naive'])
+            if cli['process'] != 'naive':
+                s['omd'] = [{'KEGG_Pathways': m['lineage']} for m in s['omd']]      # a list category after processing
+    if rng.random() < 0.4 and 'sample' not in cli['collapsed'] and n:
+        cols = rng.choice([['Treatment'], ['Treatment', 'pH'], ['body site']])
+        cli['mapping'] = {sid: {col: rng.choice(['Control', 'Fast', '7.5', 'gut é', 'a b']) for col in cols} for sid in s['sids']}
+        if s.get('smd') and any(col in s['smd'][0] for col in cols):
+            cli['mapping'] = None
+    c['cli'], c['compress'] = cli, True
+    return c
 
 
 def nontrivial(case):
@@ -275,12 +422,24 @@ def nontrivial(case):
 def classify(case):
     if case.get('kind') == 'fixture':
         return ['kind:fixture', 'theorem-domain:%s' % ('inside' if _in_domain(case) else 'outside')]
+    if case.get('writer') == 'convert_cli':
+        cli = case['cli']
+        return U.classify_case(case) + ['cli-input:%s' % cli['input'], 'cli-table-type:%s' % ('given' if cli.get('table_type') else 'absent'),
+                                        'cli-collapsed:%s' % ('+'.join(cli.get('collapsed') or []) or 'no'),
+                                        'cli-process-obs-metadata:%s' % cli.get('process'), 'cli-mapping:%s' % bool(cli.get('mapping')),
+                                        'theorem-domain:%s' % ('inside' if _in_domain(case) else 'outside')]
     return U.classify_case(case) + [U.layout_tag(_state(case)), 'theorem-domain:%s' % ('inside' if _in_domain(case) else 'outside'),
                                     'history:%s' % (case.get('history') or 'write')]
 
 
 def shrink(case):
     if case.get('kind') == 'fixture':
+        return
+    if case.get('writer') == 'convert_cli':
+        cli = case['cli']
+        for k, v in (('mapping', None), ('table_type', None)):
+            if cli.get(k):
+                yield dict(case, cli=dict(cli, **{k: v}))
         return
     if case.get('history'):
         yield {k: v for k, v in case.items() if k != 'history'}
